@@ -168,6 +168,13 @@ def main():
              "or a writer and a reader of the same flag / counter / encoded word that no longer agree on its value, polarity, mask or width; "
              "prefer a clause of the property other than its first sentence")
         table = dict((k, g) for k in FOCUS)
+    if "--focus7" in sys.argv:
+        use_focus = True
+        g = ("the less-travelled parts of the public API and the arithmetic on encoded words: exported wrapper functions and the _LGPL_SOURCE inline "
+             "twins, nonblocking / _safe / iteration variants, splice / pop_all / for_each helpers, auxiliary entry points (count, resize, destroy with "
+             "attributes, explicit helper management, thread exit, poll-state handles), and masks, shifts, flag bits, sign / width conversions or "
+             "off-by-one bounds in the words those functions encode - NOT another reordering of two statements on the main fast path")
+        table = dict((k, g) for k in FOCUS)
     props = {json.loads(l)["id"]: json.loads(l) for l in open(os.path.join(V, "properties.jsonl"))}
     prev = {}
     for m in sorted(glob.glob(os.path.join(V, "seeded", "C*-*", "meta.json"))):
